@@ -35,7 +35,6 @@ func NewServer(parse ParseFn, options ...OptionFn) (*Server, error) {
 		parse:      parse,
 		logger:     slog.Default(),
 		closer:     make(chan struct{}),
-		types:      pgtype.NewMap(),
 		Statements: DefaultStatementCacheFn,
 		Portals:    DefaultPortalCacheFn,
 		Session:    func(ctx context.Context) (context.Context, error) { return ctx, nil },
@@ -56,7 +55,7 @@ type Server struct {
 	closing         atomic.Bool
 	wg              sync.WaitGroup
 	logger          *slog.Logger
-	types           *pgtype.Map
+	types           []func(*pgtype.Map)
 	Auth            AuthStrategy
 	BufferedMsgSize int
 	Parameters      Parameters
@@ -123,7 +122,14 @@ func (srv *Server) Serve(listener net.Listener) error {
 }
 
 func (srv *Server) serve(ctx context.Context, conn net.Conn) error {
-	ctx = setTypeInfo(ctx, srv.types)
+	// NOTE: type maps memoize encoding plans and are not safe for concurrent
+	// use, each connection therefore receives its own (extended) type map.
+	typeMap := pgtype.NewMap()
+	for _, extend := range srv.types {
+		extend(typeMap)
+	}
+
+	ctx = setTypeInfo(ctx, typeMap)
 	ctx = setRemoteAddress(ctx, conn.RemoteAddr())
 	defer conn.Close()
 
